@@ -324,8 +324,9 @@ CONTRACTS += [
              trusted=['event sequences (labels, line numbers, DATA statements) enumerated up to length 4 (+ 4 longer ones), '
                       'line numbers 0, 10, 65529; item texts symbolic']),
     Contract('data.read_string', PROPS + ['C07'], ['qvm.machine:DataDevice._exec_read', 'qvm.machine:Device.execute'], body_read_string,
+             # cursor states that can be reached: inside a part, or just behind the last part
              cases=[(pl, p, i) for pl in [(), (1,), (2,), (1, 2), (2, 1, 1)] for p in range(len(pl) + 1)
-                    for i in range((pl[p] if p < len(pl) else 0) + 1)],
+                    for i in range(pl[p] if p < len(pl) else 1)],
              trusted=['part layouts enumerated (<= 3 parts, <= 2 items each); item texts symbolic']),
     Contract('data.restore', PROPS, ['qvm.machine:DataDevice._exec_restore'], body_restore,
              cases=[(pl, k) for pl in [(1,), (1, 2)] for k in range(len(pl))]),
